@@ -12,6 +12,7 @@ mod prng;
 mod props;
 mod scenario;
 mod sched;
+mod seq;
 mod worker;
 
 use multiqueue2_verif_rt as rt;
@@ -58,6 +59,12 @@ impl RunSource for Explore {
         let v = props::evaluate(&self.prop, &scn, &o);
         if v.nontrivial {
             self.nontrivial += 1;
+        }
+        if std::env::var("SHOW_STUCK").is_ok() && matches!(o.end, sched::End::Livelock | sched::End::Deadlock) && v.violations.is_empty() && self.shown < self.max_show {
+            self.shown += 1;
+            let a = analysis::Analysis::new(&o.recs, false);
+            println!("STUCK run={} seed={} {}", self.i - 1, seed, oracles::stuck_info(&a, &o).text);
+            println!("  scenario: {}", scn.to_json().to_string());
         }
         if let Some(e) = &v.harness_error {
             self.harness += 1;
